@@ -67,7 +67,7 @@ def expr_prec(e):
     raise ValueError(e)
 
 
-def render_index(idx, tape):
+def render_index(idx, tape, depth=0):
     if idx is None:
         if tape.pick('explicit0', 2):
             return '[0]'
@@ -82,22 +82,26 @@ def render_index(idx, tape):
         body = '`' + idx[1] + '`'
     else:
         raise ValueError(idx)
-    pad = tape.pick('index-pad', 3)
+    pad = tape.pick('index-pad', 5 if depth > 0 else 3)
     if pad == 1:
         body = ' ' + body + ' '
     elif pad == 2:
         body = body + ' '
+    elif pad == 3:
+        body = '\n    ' + body + '\n'       # inside right-hand-side parentheses a line may break anywhere Python allows
+    elif pad == 4:
+        body = '\t' + body
     return '[' + body + ']'
 
 
-def render_var(e, tape):
+def render_var(e, tape, depth=0):
     _, name, kind, idx = e
     if kind == 'p':
         name = ('{ ' + name + ' }') if tape.pick('brace-pad', 2) else ('{' + name + '}')
     elif kind == 'e':
         name = ('< ' + name + ' >') if tape.pick('angle-pad', 2) else ('<' + name + '>')
     gap = ' ' if (idx is not None and tape.pick('name-bracket-gap', 2)) else ''
-    ix = render_index(idx, tape)
+    ix = render_index(idx, tape, depth)
     if not ix:
         gap = ''
     return name + gap + ix
@@ -142,7 +146,7 @@ def render_expr(e, tape, depth=0):
     if t == 'num':
         return e[1]
     if t == 'var':
-        return render_var(e, tape)
+        return render_var(e, tape, depth)
     if t == 'verb':
         return '`' + e[1] + '`'
     if t == 'paren':
@@ -535,7 +539,9 @@ ERROR_NAMES = ['u', 'eps', 'err_1', 'v', 'or_e']
 REPLACED_CALLS = [('exp', 1), ('log', 1), ('max', 2), ('min', 2)]
 OTHER_CALLS = [('abs', 1), ('float', 1), ('np.sqrt', 1), ('np.abs', 1), ('np.exp', 1), ('np.log', 1),
                ('np.maximum', 2), ('np.minimum', 2), ('np.max', 1), ('np.min', 1), ('np.log10', 1),
-               ('np.fmax', 2), ('np.float64', 1)]
+               ('np.fmax', 2), ('np.float64', 1),
+               # user functions (undefined at evaluation: NameError on both sides) incl. one-character and odd names
+               ('f', 1), ('g', 2), ('F', 1), ('fn', 1), ('_f', 1), ('a.b', 1), ('np.f', 1), ('f1', 1), ('q_', 2)]
 VERB_FRAGMENTS = ['2.5', 'np.pi', '(1 + 2)', 'np.e', '0.5e1',
                   # fragments are inserted untouched: whitespace inside them (string literals!) must survive
                   "len('a  b')", "'( x )'.count(' ')", '( 1  +  2 )', "len('tab\there')", 'max(1,  2)', "len(' = ')"]
